@@ -1,4 +1,4 @@
-"""C20 -- completion proposals (clauses R20.1-R20.12)."""
+"""C20 -- completion proposals (clauses R20.1-R20.14)."""
 from __future__ import annotations
 
 import ast
@@ -18,6 +18,7 @@ EXPLANATION = (
     ' R20.9: the try-block repair classifies comment lines on the stripped line.  R20.10: the offset ledger of the repair books exactly the length change of every edit of the line list, before the old line is gone, and shifts an offset by the lines strictly before its own.'
     ' R20.11 (=R01.4): a call keyword is answered in the keyword branch; a word that only looks like one still reaches the ordinary name evaluation.'
 )
+EXPLANATION += ' R20.13: identifier characters.  R20.14: an object expression is split off only behind a character found to be a dot.'
 ASSUMPTIONS = ["proposal name is the first constructor argument"]
 
 PROPOSALS = {"CompletionProposal", "NamedParamProposal"}
@@ -385,4 +386,39 @@ def check(ctx, res) -> None:
     _check_body(ctx, res)
     from .common import identifier_char_rule
 
+    _dot_is_looked_at_rule(ctx, res)
     identifier_char_rule(ctx, res, "R20.13", ("rope.contrib.codeassist", "rope.contrib.fixsyntax", "rope.contrib.findit", "rope.base.worder"))
+
+
+def _dot_is_looked_at_rule(ctx, res) -> None:
+    """R20.14: completion splits the text before the cursor into (object expression, typed prefix).  An object expression
+    exists only if an attribute dot stands between it and the prefix.  Every `return` of `get_splitted_primary_before`
+    whose first component is not the empty string is reached only along edges on which some character of the code was
+    compared with "." and found equal -- the position taken for the dot is looked at, not assumed.  (After `foo ` or
+    `len(fo) ` the last non-blank character before the cursor is the end of the previous expression.)"""
+    idx = ctx.idx
+    f = idx.need_func("rope.base.worder._RealFinder.get_splitted_primary_before")
+    cfg = CFG(f.node)
+    dot_edges = []
+    for t in cfg.nodes:
+        if t.kind == "test" and isinstance(t.ast, ast.Compare) and len(t.ast.ops) == 1 and isinstance(t.ast.ops[0], (ast.Eq, ast.NotEq)) \
+                and any(isinstance(x, ast.Constant) and x.value == "." for x in (t.ast.left, t.ast.comparators[0])) \
+                and any(isinstance(x, ast.Subscript) for x in (t.ast.left, t.ast.comparators[0])):
+            want = "true" if isinstance(t.ast.ops[0], ast.Eq) else "false"
+            dot_edges += [(t.id, b, lab) for b, lab in cfg.succ[t.id] if lab == want]
+    n = 0
+    for nd in cfg.nodes:
+        st = nd.ast
+        if nd.kind != "stmt" or not isinstance(st, ast.Return) or not isinstance(st.value, ast.Tuple) or not st.value.elts:
+            continue
+        first = st.value.elts[0]
+        if isinstance(first, ast.Constant) and first.value == "":
+            continue
+        n += 1
+        ok = nd.id not in cfg.reachable(cfg.entry.id, avoid_edges=dot_edges)
+        res.add("R20.14", f"get_splitted_primary_before|object-expression-only-behind-a-dot#{n}", ok, f"{f.unit.rel}:{st.lineno}",
+                "an object expression is returned only where a character of the code was found to be the dot" if ok else
+                f"`{ast.unparse(st)[:70]}` can be reached without any test that the character taken for the attribute dot IS a dot: with the cursor after `foo ` the split is "
+                "('fo', '') -- completion lists the attributes of another variable `fo`, or nothing -- and after `len(fo) ` or `int(foo)` code assist raises "
+                "BadIdentifierError", function=f.qualname)
+    res.floor("R20.14", "splits with an object expression", n, 1)
